@@ -75,6 +75,18 @@ def observe_claims(cms, hist, root, view, texts=None):
     return out
 
 
+def hash_then_open_c_comment(out):
+    """a physical line on which a # comment is followed by a /* that is not closed on that line"""
+    for ln in out.split("\n"):
+        h = ln.find("#")
+        if h < 0:
+            continue
+        o = ln.rfind("/*")
+        if o > h and "*/" not in ln[o:]:
+            return True
+    return False
+
+
 class SecondDumpDiffers(Exception):
     pass
 
@@ -218,6 +230,12 @@ def run(tier):
         if v["verdict"] != "ok":
             text, out_c, cms = meta[tid]
             kind = tid.split(":")[0]
+            if v["verdict"] == "output-with-comments-rejected" and out_c and hash_then_open_c_comment(out_c):
+                # the listed finding (several comments joined on one keyword line, a # comment in front of a multi-line
+                # C comment) reached through a generated placement
+                ck.violation("C14|joined-multiline-after-hash|%s" % kind, "a multi-line /* */ comment joined behind a # comment on a keyword line makes the output unparseable",
+                             {"text": text, "printed": out_c, "comments": cms})
+                continue
             ck.violation("C14|%s|%s" % (v["verdict"], kind if kind in ("gen", "rootkv") else tid),
                          "comment clause violated: %s (%s)" % (v["verdict"], tid), {"text": text, "printed": out_c, "comments": cms})
     ck.sample({"placements": bs[0]["comments"], "text": meta["gen:0"][0][:500] if "gen:0" in meta else ""})
